@@ -61,7 +61,7 @@ func loadWorld(dir string) (*World, error) {
 	if len(pkgs[0].Errors) > 0 {
 		return nil, fmt.Errorf("package errors: %v", pkgs[0].Errors)
 	}
-	prog, spkgs := ssautil.AllPackages(pkgs, ssa.InstantiateGenerics)
+	prog, spkgs := ssautil.AllPackages(pkgs, ssa.InstantiateGenerics|ssa.GlobalDebug)
 	prog.Build()
 	w := &World{Prog: prog, Pkg: spkgs[0], PPkg: pkgs[0], Fset: pkgs[0].Fset,
 		Funcs: map[string]*ssa.Function{}, structs: map[string]*structInfo{}, anonStructs: map[string]string{},
